@@ -30,7 +30,14 @@ func prop(t *rapid.T) {
 	ref, info := dagen.GenDAG(t, 1, ids, ws, dagen.Params{MinEvents: 8, MaxEvents: 80, Forks: dagen.AnyFork, NonMaxFrames: false})
 	n := len(ref.Evs)
 	cfg, cname := vidx.DrawConfig(t, "cfg")
-	x := vidx.New(ref, cfg)
+	// a third of the index objects have served another epoch (another validator group) before
+	servedBefore := rapid.IntRange(0, 2).Draw(t, "indexServedAnotherEpochBefore") == 0
+	var x *vidx.Index
+	if servedBefore {
+		x = vidx.NewAfterOtherEpoch(t, ref, cfg)
+	} else {
+		x = vidx.New(ref, cfg)
+	}
 	order := dagen.GenOrder(t, ref, "order")
 	ad := &adapters.VectorToDagIndexer{Index: x.Idx}
 	canonPos := make([]int, len(ref.IDs)) // validator -> canonical index
@@ -103,6 +110,9 @@ func prop(t *rapid.T) {
 	}
 	if forkEntries > 0 {
 		classes = append(classes, "fork_observed")
+	}
+	if servedBefore {
+		classes = append(classes, "index_served_another_epoch_before")
 	}
 	classes = append(classes, fmt.Sprintf("flush_every_%d", sess.FlushEvery))
 	if sess.Reloads > 0 {
